@@ -1,7 +1,7 @@
 #!/bin/bash
 # tools/run_all.sh [quick|thorough] [parallel] : run every registered check (default: one after the other;
 # with <parallel> N properties at a time), summarise in /tmp/verif_run_summary.txt
-T=${1:-quick}; PAR=${2:-1}; JOBS=16; [ "$PAR" -gt 1 ] && JOBS=10
+T=${1:-quick}; PAR=${2:-1}; JOBS=16; [ "$PAR" -eq 2 ] && JOBS=10; [ "$PAR" -ge 3 ] && JOBS=8
 cd /verif
 ./setup.sh || exit 3
 : > /tmp/verif_run_summary.txt
